@@ -218,6 +218,25 @@ def xbt_class(key):
                 return "xbt.cfloat.dec.allones"
         except ValueError:
             pass
+    # known defect of cfloat operator++ for negative encodings (isminnegencoding's generic loop never looks at the limb below
+    # the top one, only reached with five or more uint8_t limbs): low byte 1, sign set, bytes 1..MSU-2 zero
+    if len(t) >= 7 and t[0] == "cfloat" and t[5] == "inc":
+        try:
+            n, a = int(t[1]), int(t[6], 16)
+            nl = (n + 7) // 8
+            if nl >= 5 and (a >> (n - 1)) & 1 and (a & 0xff) == 1 and ((a >> 8) & ((1 << (8 * (nl - 3))) - 1)) == 0:
+                return "xbt.cfloat.inc.minneg_manyblocks"
+        except ValueError:
+            pass
+    # areal conversion of an IEEE-subnormal source is wrong in a block-type dependent way (known under C18 as well)
+    if len(t) >= 6 and t[0] == "areal" and t[4] in ("f64", "f32"):
+        try:
+            b = int(t[5], 16)
+            e = (b >> 52) & 0x7ff if t[4] == "f64" else (b >> 23) & 0xff
+            if e == 0 and b & ((1 << (52 if t[4] == "f64" else 23)) - 1):
+                return "xbt.areal.assign.subnormal_source"
+        except ValueError:
+            pass
     return "-"
 
 
